@@ -328,7 +328,8 @@ def gen_server_plan(rng, prof=None):
                          # WebSocket write finds the buffer full and the
                          # gateway suspends the writing task)
                          'slow_ws_write': rng.choice([0, 0, 0, 0, 1, 2, 4])
-                         if server == 'asyncio' else 0},
+                         if server == 'asyncio' else 0,
+                         'legacy_disconnect': rng.random() < 0.12},
             'rng_seed': rng.randint(0, 2 ** 31)}
     return plan
 
